@@ -55,284 +55,6 @@ func unhex(s string) []byte {
 	return b
 }
 
-// ================================================================ trie stream
-
-type TrieOp struct {
-	Kind string `json:"k"` // u g c(commit)
-	Key  string `json:"key,omitempty"`
-	Val  string `json:"v,omitempty"`
-	Meta string `json:"m,omitempty"`
-}
-type TrieCase struct {
-	Ops []TrieOp `json:"ops"`
-	TTL uint16   `json:"ttl"`
-}
-
-type trieObs struct {
-	gets   []string
-	leaves []string
-	paths  []string
-	root   thor.Bytes32
-	err    string
-}
-
-func runTrieReal(c *TrieCase) (o trieObs) {
-	defer func() {
-		if r := recover(); r != nil {
-			o.err = fmt.Sprint("panic: ", r)
-		}
-	}()
-	db := triesim.NewMemDB()
-	tr := trie.New(trie.Root{}, db)
-	tr.SetCacheTTL(c.TTL)
-	ver := uint32(0)
-	for _, op := range c.Ops {
-		switch op.Kind {
-		case "u":
-			if err := tr.Update(unhex(op.Key), unhex(op.Val), unhex(op.Meta)); err != nil {
-				o.err = err.Error()
-				return
-			}
-		case "g":
-			v, m, err := tr.Get(unhex(op.Key))
-			if err != nil {
-				o.err = err.Error()
-				return
-			}
-			if len(v) == 0 {
-				o.gets = append(o.gets, "-")
-			} else {
-				o.gets = append(o.gets, hex.EncodeToString(v)+"~"+hex.EncodeToString(m))
-			}
-		case "c":
-			ver++
-			if err := tr.Commit(db, trie.Version{Major: ver}, false); err != nil {
-				o.err = err.Error()
-				return
-			}
-		}
-	}
-	o.root = tr.Hash()
-	paths, leaves, err := triesim.Shape(tr.NodeIterator(nil, trie.Version{}))
-	if err != nil {
-		o.err = err.Error()
-		return
-	}
-	o.paths = paths
-	for _, l := range leaves {
-		o.leaves = append(o.leaves, l.Key+"="+hex.EncodeToString(l.Val)+"~"+hex.EncodeToString(l.Meta))
-	}
-	return
-}
-
-func trieLine(c *TrieCase) string {
-	var b strings.Builder
-	b.WriteString("T |")
-	for _, op := range c.Ops {
-		switch op.Kind {
-		case "u":
-			if op.Val == "" {
-				fmt.Fprintf(&b, " u%s=", op.Key)
-			} else {
-				fmt.Fprintf(&b, " u%s=%s~%s", op.Key, op.Val, op.Meta)
-			}
-		case "g":
-			fmt.Fprintf(&b, " g%s", op.Key)
-		}
-	}
-	return b.String()
-}
-
-// parse "g.. | L k=v~m .. | P p .."
-func parseTrieAnswer(ans string) (gets, leaves, paths []string) {
-	parts := strings.Split(ans, "|")
-	if len(parts) != 3 {
-		return nil, nil, []string{"unparsable: " + ans}
-	}
-	gets = strings.Fields(parts[0])
-	leaves = strings.Fields(parts[1])[1:]
-	paths = strings.Fields(parts[2])[1:]
-	return
-}
-
-func refRootOfLeafStrings(leaves []string) thor.Bytes32 {
-	var kvs []triesim.KV
-	for _, l := range leaves {
-		i := strings.IndexByte(l, '=')
-		vm := strings.SplitN(l[i+1:], "~", 2)
-		kvs = append(kvs, triesim.KV{Key: triesim.ParsePath(l[:i]), Val: unhex(vm[0])})
-	}
-	return triesim.RefRoot(kvs)
-}
-
-// the property itself on the implementation: reads = plain map; root = reference root of what it reads back
-func trieProperty(c *TrieCase, o *trieObs) string {
-	if o.err != "" {
-		return "error: " + o.err
-	}
-	m := map[string][2]string{}
-	gi := 0
-	for _, op := range c.Ops {
-		switch op.Kind {
-		case "u":
-			if op.Val == "" {
-				delete(m, op.Key)
-			} else {
-				m[op.Key] = [2]string{op.Val, op.Meta}
-			}
-		case "g":
-			want := "-"
-			if v, ok := m[op.Key]; ok {
-				want = v[0] + "~" + v[1]
-			}
-			if o.gets[gi] != want {
-				return fmt.Sprintf("trie read != map: get #%d of %s = %s, map says %s", gi, op.Key, o.gets[gi], want)
-			}
-			gi++
-		}
-	}
-	var kvs []triesim.KV
-	for k, v := range m {
-		kvs = append(kvs, triesim.KV{Key: triesim.Nibbles(unhex(k)), Val: unhex(v[0])})
-	}
-	if r := triesim.RefRoot(kvs); r != o.root {
-		return fmt.Sprintf("trie root != reference root of content: %x vs %x", o.root[:], r[:])
-	}
-	if len(o.leaves) != len(m) {
-		return fmt.Sprintf("trie iterates %d leaves, content has %d", len(o.leaves), len(m))
-	}
-	return ""
-}
-
-func genTrieCase(r *hx.Rand) *TrieCase {
-	c := &TrieCase{TTL: uint16([]int{0, 0, 1, 3, 32}[r.Intn(5)])}
-	// key universe: short keys with shared prefixes, prefix-related keys, or 32-byte hashed keys
-	mode := r.Intn(4)
-	nkeys := r.Range(2, 14)
-	if r.Chance(1, 6) {
-		nkeys = r.Range(30, 80)
-	}
-	keys := make([]string, 0, nkeys)
-	for len(keys) < nkeys {
-		var k []byte
-		switch mode {
-		case 0: // 2-byte keys over a tiny alphabet: many splits and merges
-			k = []byte{byte(r.Intn(3)) << 4, byte(r.Intn(4))<<4 | byte(r.Intn(2))}
-		case 1: // variable length, prefix related
-			k = []byte{0x12, 0x34, 0x56, 0x78}[:r.Range(1, 4)]
-			if r.Bool() {
-				k = append(append([]byte(nil), k...), byte(r.Intn(3)))
-			}
-		case 2: // hashed keys
-			k = thor.Blake2b([]byte{byte(r.Intn(200))}).Bytes()
-		default: // 3-byte keys, medium alphabet
-			k = []byte{byte(r.Intn(2)), byte(r.Intn(16)) << 4, byte(r.Intn(256))}
-		}
-		keys = append(keys, hex.EncodeToString(k))
-	}
-	n := r.Range(4, 60)
-	if len(keys) > 20 {
-		n = r.Range(60, 200)
-	}
-	for i := 0; i < n; i++ {
-		k := keys[r.Intn(len(keys))]
-		switch x := r.Intn(10); {
-		case x < 5:
-			vl := []int{1, 2, 5, 31, 32, 33, 40}[r.Intn(7)]
-			op := TrieOp{Kind: "u", Key: k, Val: hex.EncodeToString(r.Bytes(vl))}
-			if r.Bool() {
-				op.Meta = hex.EncodeToString(r.Bytes(r.Range(1, 4)))
-			}
-			c.Ops = append(c.Ops, op)
-		case x < 8:
-			c.Ops = append(c.Ops, TrieOp{Kind: "u", Key: k})
-		case x < 9:
-			c.Ops = append(c.Ops, TrieOp{Kind: "g", Key: k})
-		default:
-			c.Ops = append(c.Ops, TrieOp{Kind: "c"})
-		}
-	}
-	for _, k := range keys {
-		c.Ops = append(c.Ops, TrieOp{Kind: "g", Key: k})
-	}
-	return c
-}
-
-func trieDisagreement(c *TrieCase, o *trieObs, ans string) string {
-	if o.err != "" {
-		return "real trie failed: " + o.err
-	}
-	gets, leaves, paths := parseTrieAnswer(ans)
-	if strings.Join(gets, " ") != strings.Join(o.gets, " ") {
-		return "gets differ"
-	}
-	if strings.Join(leaves, " ") != strings.Join(o.leaves, " ") {
-		return "leaves differ"
-	}
-	if strings.Join(paths, " ") != strings.Join(o.paths, " ") {
-		return fmt.Sprintf("shape differs: real %v model %v", o.paths, paths)
-	}
-	if r := refRootOfLeafStrings(leaves); r != o.root {
-		return fmt.Sprintf("root %x != reference root of model content %x", o.root, r)
-	}
-	return ""
-}
-
-func runTrieCases(ctx *hx.Ctx, cases []*TrieCase) {
-	lines := make([]string, len(cases))
-	obs := make([]trieObs, len(cases))
-	for i, c := range cases {
-		obs[i] = runTrieReal(c)
-		lines[i] = trieLine(c)
-	}
-	answers, err := hx.AskAll(ctx.Oracle, lines)
-	if err != nil {
-		hx.Fatal("oracle: %v", err)
-	}
-	for i, c := range cases {
-		nu, nd, nc := 0, 0, 0
-		for _, op := range c.Ops {
-			switch {
-			case op.Kind == "u" && op.Val != "":
-				nu++
-			case op.Kind == "u":
-				nd++
-			case op.Kind == "c":
-				nc++
-			}
-		}
-		cb, _ := json.Marshal(c)
-		ctx.Cov.Case("T"+string(cb), nu >= 3 && nd >= 1 && len(obs[i].paths) >= 3, map[string]any{"stream": "trie", "ops": len(c.Ops)})
-		ctx.Cov.Count("trie.cases")
-		ctx.Cov.Bucket("trie.ops", len(c.Ops))
-		ctx.Cov.Bucket("trie.final_nodes", len(obs[i].paths))
-		ctx.Cov.Add("trie.commits", nc)
-		if f := trieProperty(c, &obs[i]); f != "" {
-			if !once("trie:" + classOf(f)) {
-				continue
-			}
-			sc := shrinkTrie(c, func(x *TrieCase) bool { o := runTrieReal(x); return trieProperty(x, &o) != "" })
-			o := runTrieReal(sc)
-			ctx.Violation("trie:"+classOf(trieProperty(sc, &o)), trieProperty(sc, &o), map[string]any{"stream": "trie", "case": sc}, true)
-			continue
-		}
-		if d := trieDisagreement(c, &obs[i], answers[i]); d != "" {
-			if !once("correspondence:trie:" + classOf(d)) {
-				continue
-			}
-			sc := shrinkTrie(c, func(x *TrieCase) bool {
-				o := runTrieReal(x)
-				a, err := hx.AskAll(ctx.Oracle, []string{trieLine(x)})
-				return err == nil && trieDisagreement(x, &o, a[0]) != ""
-			})
-			o := runTrieReal(sc)
-			a, _ := hx.AskAll(ctx.Oracle, []string{trieLine(sc)})
-			ctx.Violation("correspondence:trie:"+classOf(d), "trie model and trie.Trie disagree (theorems trie_refines_map / trie_canonical no longer describe the code): "+
-				trieDisagreement(sc, &o, a[0]), map[string]any{"stream": "trie", "case": sc}, false)
-		}
-	}
-}
-
 var reported = map[string]bool{}
 
 // once reports whether this class has not been reported yet in this run (shrinking is only worth doing once per class)
@@ -349,26 +71,6 @@ func classOf(s string) string {
 		s = s[:i]
 	}
 	return strings.TrimSpace(s)
-}
-
-func shrinkTrie(c *TrieCase, bad func(*TrieCase) bool) *TrieCase {
-	cur := c
-	budget := 300
-	for chunk := len(cur.Ops) / 2; chunk >= 1 && budget > 0; {
-		shrunk := false
-		for i := 0; i+chunk <= len(cur.Ops) && budget > 0; i++ {
-			budget--
-			x := &TrieCase{TTL: cur.TTL, Ops: append(append([]TrieOp(nil), cur.Ops[:i]...), cur.Ops[i+chunk:]...)}
-			if bad(x) {
-				cur, shrunk = x, true
-				i--
-			}
-		}
-		if !shrunk || chunk > len(cur.Ops) {
-			chunk /= 2
-		}
-	}
-	return cur
 }
 
 // ================================================================ state stream
@@ -496,11 +198,15 @@ func decodeStorage(raw []byte) thor.Bytes32 {
 	return thor.BytesToBytes32(raw[1:]) // short strings only (<= 32 bytes)
 }
 
-func newDB(c *Case) *muxdb.MuxDB {
+// newDB returns the database of a case and a function giving a fresh handle on the same data (a restart: empty caches).
+func newDB(c *Case) (*muxdb.MuxDB, func() *muxdb.MuxDB) {
 	if c.Cached {
-		return triesim.NewCachedMem(1, c.CacheTTL, 1, 1)
+		eng := triesim.MemEngine()
+		opts := &muxdb.Options{TrieNodeCacheSizeMB: 1, TrieCachedNodeTTL: c.CacheTTL, TrieHistPartitionFactor: 1, TrieDedupedPartitionFactor: 1}
+		return muxdb.NewWithEngine(eng, opts), func() *muxdb.MuxDB { return muxdb.NewWithEngine(eng, opts) }
 	}
-	return muxdb.NewMem()
+	db := muxdb.NewMem()
+	return db, func() *muxdb.MuxDB { return db } // NewMem has no caches
 }
 
 func readCommitted(db *muxdb.MuxDB, root trie.Root) *commitObs {
@@ -628,7 +334,7 @@ func runReal(c *Case) (rr realRun) {
 			rr.err = fmt.Sprint("panic: ", r)
 		}
 	}()
-	db := newDB(c)
+	db, freshDB := newDB(c)
 	stater := state.NewStater(db)
 	roots := []trie.Root{{}}
 	st := stater.NewState(roots[0])
@@ -639,21 +345,51 @@ func runReal(c *Case) (rr realRun) {
 			rr.failure = f
 		}
 	}
-	// a second live handle on the root the main handle was opened on: it must keep reading the same whatever the
-	// main handle stages or commits afterwards (committed roots are immutable; nodes are shared through the caches)
-	reader := stater.NewState(roots[0])
-	readerSweep, _ := sweep(c, reader)
-	checkReader := func(when string) {
-		sw, err := sweep(c, reader)
-		if err != nil {
-			fail("committed root changed under a live reader: after " + when + " the reader fails: " + err.Error())
-		} else if sw != readerSweep {
-			fail("committed root changed under a live reader: a state opened earlier on the same root reads differently after " + when)
+	// further live handles on committed roots (opened when the main handle was opened there, i.e. through the same
+	// root-node cache): they must keep reading the same whatever other handles stage or commit afterwards
+	type liveReader struct {
+		st   *state.State
+		want string
+		root int
+	}
+	var readers []liveReader
+	small := len(c.Addrs) <= 4
+	checkReaders := func(when string) {
+		for _, rd := range readers {
+			sw, err := sweep(c, rd.st)
+			if err != nil {
+				fail(fmt.Sprintf("committed root changed under a live reader: a state opened on root #%d fails after %s: %v", rd.root, when, err))
+			} else if sw != rd.want {
+				fail(fmt.Sprintf("committed root changed under a live reader: a state opened earlier on root #%d reads differently after %s", rd.root, when))
+			}
 		}
 	}
-	newReader := func(root trie.Root) {
-		reader = stater.NewState(root)
-		readerSweep, _ = sweep(c, reader)
+	newReader := func(idx int) {
+		rd := liveReader{st: stater.NewState(roots[idx]), root: idx}
+		rd.want, _ = sweep(c, rd.st)
+		readers = append(readers, rd)
+		if len(readers) > 3 {
+			readers = readers[1:]
+		}
+	}
+	newReader(0)
+	// what every committed root read right after its commit; re-read through a fresh database handle at the end
+	var committedTexts []string
+	finalCheck := func() {
+		fresh := freshDB()
+		for i, root := range roots[1:] {
+			co := triesim.ReadCommitted(fresh, root)
+			if co.Err != "" {
+				fail(fmt.Sprintf("committed root unreadable after restart: root #%d (v%d.%d): %s", i+1, root.Ver.Major, root.Ver.Minor, co.Err))
+				continue
+			}
+			if f := co.Property(); f != "" {
+				fail(fmt.Sprintf("after restart root #%d (v%d.%d): %s", i+1, root.Ver.Major, root.Ver.Minor, f))
+			}
+			if co.Text() != strings.TrimSpace(committedTexts[i]) {
+				fail(fmt.Sprintf("committed root changed: root #%d (v%d.%d) read through a fresh database handle differs from what it read right after its commit", i+1, root.Ver.Major, root.Ver.Minor))
+			}
+		}
 	}
 	for _, op := range c.Ops {
 		so := stepObs{text: "."}
@@ -749,12 +485,13 @@ func runReal(c *Case) (rr realRun) {
 			if f := reopenProperty(c, before, after); f != "" {
 				fail(f)
 			}
-			checkReader("a commit through another handle")
+			committedTexts = append(committedTexts, so.text)
+			checkReaders("a commit through another handle")
 			if op.Reopen {
 				st = ns
 				cpSweeps = map[int]string{}
 				depth = 1
-				newReader(root)
+				newReader(len(roots) - 1)
 			}
 		case "stagedrop":
 			// Stage without Commit: must be a pure computation (no effect on this state object or on committed roots)
@@ -762,12 +499,12 @@ func runReal(c *Case) (rr realRun) {
 				rr.err = "stage (dropped): " + err.Error()
 				return
 			}
-			checkReader("a Stage (not committed) through another handle")
+			checkReaders("a Stage (not committed) through another handle")
 		case "open":
 			st = stater.NewState(roots[op.N])
 			cpSweeps = map[int]string{}
 			depth = 1
-			newReader(roots[op.N])
+			newReader(op.N)
 		case "obs":
 			sw, err := sweep(c, st)
 			if err != nil {
@@ -775,9 +512,13 @@ func runReal(c *Case) (rr realRun) {
 				return
 			}
 			so.text = sw
+			if small {
+				checkReaders("reads through another handle")
+			}
 		}
 		rr.steps = append(rr.steps, so)
 	}
+	finalCheck()
 	return
 }
 
@@ -1096,7 +837,97 @@ func clip(s string) string {
 
 // ---------------------------------------------------------------- generation
 
+// genSharedCase: few accounts / storage keys whose secure keys share their first byte (extension node over a
+// small branch), real caches, and a loop of create / commit+re-open / destroy-or-zero / Stage or Commit / re-open:
+// the shapes in which a delete collapses a branch into the extension above it while other handles share the nodes.
+func genSharedCase(r *hx.Rand) *Case {
+	c := &Case{Cached: true, CacheTTL: 32}
+	pick := func(n int) string {
+		for {
+			b := r.Bytes(n)
+			if thor.Blake2b(b).Bytes()[0] == 0x5a {
+				return hex.EncodeToString(b)
+			}
+		}
+	}
+	na, nk := r.Range(2, 3), r.Range(2, 3)
+	for i := 0; i < na; i++ {
+		c.Addrs = append(c.Addrs, pick(20))
+	}
+	for i := 0; i < nk; i++ {
+		c.Keys = append(c.Keys, pick(32))
+	}
+	for i := 0; i < na; i++ {
+		for j := 0; j < nk; j++ {
+			c.Pairs = append(c.Pairs, [2]int{i, j})
+		}
+	}
+	c.QBT, c.QStop = 1000, 2000
+	major, commits := uint32(0), 0
+	emit := func(op Op) { c.Ops = append(c.Ops, op) }
+	word := func() string { return hex.EncodeToString(append(make([]byte, 32-8), r.Bytes(8)...)) }
+	commit := func(reopen bool) {
+		major++
+		emit(Op{K: "commit", Major: major, Reopen: reopen})
+		commits++
+		emit(Op{K: "obs"})
+	}
+	for round := 0; round < r.Range(2, 6); round++ {
+		// (re)create
+		for a := 0; a < na; a++ {
+			if r.Chance(3, 4) {
+				emit(Op{K: "bal", A: a, V: hex.EncodeToString(r.Bytes(r.Range(1, 8)))})
+			}
+			for k := 0; k < nk; k++ {
+				if r.Chance(2, 3) {
+					emit(Op{K: "sto", A: a, S: k, V: word()})
+				}
+			}
+		}
+		emit(Op{K: "obs"})
+		commit(true)
+		// destroy / zero a few things, stage or commit, look again from other handles
+		for j := 0; j < r.Range(1, 4); j++ {
+			a, k := r.Intn(na), r.Intn(nk)
+			switch r.Intn(4) {
+			case 0:
+				emit(Op{K: "bal", A: a, V: "0"})
+			case 1:
+				emit(Op{K: "del", A: a})
+			case 2:
+				emit(Op{K: "sto", A: a, S: k, V: hex.EncodeToString(make([]byte, 32))})
+			default:
+				emit(Op{K: "sto", A: a, S: k, V: word()})
+			}
+		}
+		emit(Op{K: "obs"})
+		switch r.Intn(3) {
+		case 0:
+			emit(Op{K: "stagedrop"})
+			emit(Op{K: "obs"})
+			emit(Op{K: "open", N: commits}) // the same root again, through the root cache
+			emit(Op{K: "obs"})
+		case 1:
+			commit(false)
+			emit(Op{K: "open", N: commits - 1}) // a sibling fork from the parent
+			emit(Op{K: "obs"})
+			emit(Op{K: "bal", A: r.Intn(na), V: hex.EncodeToString(r.Bytes(3))})
+			major++
+			emit(Op{K: "commit", Major: major - 1, Minor: 1, Reopen: true})
+			commits++
+			emit(Op{K: "obs"})
+		default:
+			commit(true)
+		}
+	}
+	fix(c)
+	return c
+}
+
 func genCase(r *hx.Rand, idx int) *Case {
+	if idx%5 == 3 {
+		return genSharedCase(r)
+	}
 	c := &Case{}
 	large := idx%5 == 4
 	na, nk := r.Range(1, 4), r.Range(1, 4)
@@ -1448,7 +1279,7 @@ func main() {
 		}
 	}
 	r := hx.NewRand(ctx.Seed)
-	nt := ctx.Scale(1500, 60000)
+	nt := ctx.Scale(9000, 200000)
 	if os.Getenv("C06_SKIP_TRIE") != "" {
 		nt = 0
 	}
@@ -1462,7 +1293,7 @@ func main() {
 		runTrieCases(ctx, batch)
 		done += n
 	}
-	ns := ctx.Scale(400, 30000)
+	ns := ctx.Scale(4000, 60000)
 	rs := r.Fork(2)
 	for done := 0; done < ns; {
 		n := min(100, ns-done)
@@ -1473,11 +1304,14 @@ func main() {
 		runCases(ctx, batch)
 		done += n
 	}
-	ctx.Finish("trie stream: Update/Get/Commit sequences over 4 key universes (2-byte tiny alphabet, prefix-related variable length, "+
-		"Blake2b-hashed, 3-byte), values 1-40 bytes with/without metadata, cache TTL 0-32; state stream: histories of 10-150 ops over 1-4 or "+
+	ctx.Finish("trie stream: Update/Get/Commit sequences on up to 5 live handles sharing nodes (trie.FromRootNode forks), every handle re-read after every op and "+
+		"every committed version re-opened from the node database at the end, over 5 key universes (2-byte tiny alphabet, prefix-related variable length, Blake2b-hashed, "+
+		"3-byte, long keys with shared heads and distinct tails), values 1-40 bytes with/without metadata, cache TTL 0-32; state stream: histories of 10-150 ops over 1-4 or "+
 		"20-40 addresses and 1-4 or 10-30 storage keys (zero key, zero values, raw RLP lists, empty code, zero master, delete-then-recreate, "+
-		"nested checkpoints/reverts, commits at successive versions and conflict numbers with or without re-open, forks from earlier roots) on "+
-		"muxdb.NewMem and on mem LevelDB with the real caches; non-trivial = contains delete, revert, commit and storage writes",
+		"nested checkpoints/reverts, Stage without Commit, commits at successive versions and conflict numbers with or without re-open, forks from earlier roots) on "+
+		"muxdb.NewMem and on mem LevelDB with the real caches, with up to 3 further live reader states re-read after every commit/stage and all committed roots re-read through a "+
+		"fresh database handle at the end; every 5th case is a shared-prefix create/commit/destroy/re-open loop over 2-3 accounts whose secure keys share the first byte; "+
+		"non-trivial = contains delete, revert, commit and storage writes",
 		[]string{
 			"Blake2b / Keccak are computed by the real library and given to the model as data (secure keys, code hashes)",
 			"the reference MPT hasher in harness/internal/triesim is the specification of 'canonical Merkle-Patricia root'",
